@@ -21,7 +21,7 @@ CHECKS = {
     text="Variable discovery/order/binding decided for all values over six name pools (ASCII, Greek, braced arbitrary text, 20 names) and seeded occurrence patterns; arity errors for every slice length 0..n+3.", ref="4/C04"),
  "C05": dict(engine="S", technique="real FlatEx/DeepEx::partial executed at a term-valued data type over the transplanted default table; is_zero/is_one shortcuts forked by a solver-backed decision oracle; z3 (QF_UFNRA with ground-instantiated laws) decides derivative term = dual-number reference under the domain conjunct",
     text="For every tree of a ~1300-tree pool over + - * / ^, unary +/- and the 18 differentiable functions, every variable and four forms (flat, deep, deep>flat, flat>deep), the derivative expression returned by the real code is decided equal to the textbook derivative at ALL points of the interior of the domain (reals, elementary functions uninterpreted); operators without a rule must give Err. Tests check a handful of expressions at a handful of points by finite differences.", ref="4/C05"),
- "C06": dict(engine="S", technique="exhaustive path enumeration at T = Sym under catch_unwind over tree programs and raw token sequences through every pipeline incl. follow-up calls; concrete entry points executed on enumerated inputs",
+ "C06": dict(engine="S+K", technique="Kani/CBMC decides the tokenizer's look-ahead helper next_char_boundary (characters of every UTF-8 length behind an operator name) and is_numeric_text panic-free for all inputs within their bound; exhaustive path enumeration at T = Sym under catch_unwind over tree programs and raw token sequences through every pipeline incl. follow-up calls; concrete entry points executed on enumerated inputs",
     text="Panic-freedom of every explored path (a path covers all values). The tokenizer on arbitrary Unicode and the stack-depth claim are outside (stated).", ref="4/C06"),
  "C07": dict(engine="S", technique="exhaustive enumeration of raw token sequences and of single-point damages of well-formed texts through the real parsers at T = Sym; acceptance compared with the statement-level well-formedness predicate",
     text="Every malformed text in the enumerated space is rejected by all three parser entry points; acceptance is value-independent so this part is path enumeration inside the symbolic executor, not a solver query (said so in the evidence).", ref="4/C07"),
